@@ -1,2 +1,6 @@
-// Package props links every property implementation into the binary.
+// Package props links every property implementation into the vcheck binary.
 package props
+
+import (
+	_ "verifharness/internal/props/c05"
+)
